@@ -198,6 +198,11 @@ func c12Run(env *core.Env, idx int) *core.CaseResult {
 	var finished atomic.Int32
 	var refused atomic.Int64
 	refusing := idx%4 == 1 && !burst
+	var created, ddlDone atomic.Int64
+	ddl := idx%4 == 2 && !burst
+	if ddl {
+		tags = append(tags, "create-table-among-callers")
+	}
 	if refusing {
 		tags = append(tags, "refused-statements-among-callers")
 	}
@@ -278,6 +283,21 @@ func c12Run(env *core.Env, idx int) *core.CaseResult {
 						mu.Unlock()
 					}
 					continue
+				}
+				if ddl && lr.Intn(8) == 0 && created.Add(1) <= 8 {
+					// DDL among the callers, next to the forced checkpoints of the background goroutine
+					sql := fmt.Sprintf("CREATE TABLE side%dn%d(a INT, b VARCHAR(32));", c, n)
+					err, out := db.S.ExecuteSQL(sql)
+					if err != nil || len(out) != 0 {
+						fail(fmt.Sprintf("%s returned (%v, %v)", sql, err, out))
+						return
+					}
+					sql = fmt.Sprintf("INSERT INTO side%dn%d(a, b) VALUES (%d, 'x');", c, n, n)
+					if err, out := db.S.ExecuteSQL(sql); err != nil || len(out) != 0 {
+						fail(fmt.Sprintf("%s returned (%v, %v)", sql, err, out))
+						return
+					}
+					ddlDone.Add(1)
 				}
 				if refusing && lr.Intn(2) == 0 {
 					// a statement the engine has to refuse (parse / plan error): the caller gets an error of its own statement, nothing else
@@ -425,6 +445,7 @@ func c12Run(env *core.Env, idx int) *core.CaseResult {
 	res.Add("operations", int64(len(ops)))
 	res.Add("clients", int64(clients))
 	res.Add("refused_statements_answered_with_an_error", refused.Load())
+	res.Add("tables_created_by_callers_next_to_dml", ddlDone.Load())
 	if failure != "" {
 		k := "wrong-result"
 		if strings.Contains(failure, "panicked") {
